@@ -517,6 +517,7 @@ func genC19(ctx *Ctx) []Case {
 	add("witness", true, c19SortCase(2, nil, w, 25, nil))                                        // no key, two rows per chunk
 	add("witness", true, c19SortCase(2, []int{0}, [][]string{{"", "1"}, {"x", "2"}}, huge, nil)) // 8d128f5 empty key first
 	add("witness", true, c19SortCase(1, nil, [][]string{{""}, {"x"}, {""}}, 1, nil))
+	add("witness", true, c19SortCase(0, nil, [][]string{{"b", "1"}, {"a", "2"}, {"c", "3"}}, 25, nil))                                             // no key and SetColumns not called: the key is empty, one row survives
 	add("witness", true, c19SortCase(3, []int{2, 1}, [][]string{{"r", "b", "2"}, {"q", "a", "2"}, {"p", "b", "1"}, {"o", "b", "2"}}, 1, []int{0})) // 8e1d1a9 removed column before key
 	add("witness", true, c19SortCase(3, []int{1}, [][]string{{"r", "b", "2"}, {"q", "a", "2"}, {"p", "b", "1"}}, huge, []int{0, 2}))
 	{ // fa79010: 300 rows + a duplicate of row 254 placed so that it heads block 1
